@@ -381,4 +381,4 @@ mod tests {
 
 #[cfg(kani)]
 #[path = "/verif/hooks/vtx/lib.rs"]
-mod verif_hooks;
+pub(crate) mod verif_hooks;
